@@ -79,9 +79,11 @@ class Receiver:
         UUID = im["UUID"]
         self.tid, self.other_tid = UUID(int=0x77), UUID(int=0x78)
         t = im["t"]
-        if proto == "xfer":
+        if proto in ("xfer", "xferTurbo"):
             self.mgr = im["xm"].XferManager(self.holder)
-            self.obj = self.mgr.request(xfer_id=self.XFER_ID, vfile_id=UUID(int=5), vfile_type=t.AssetType.BODYPART)
+            # "xferTurbo": the receiver acknowledges pieces ahead of their arrival
+            self.obj = self.mgr.request(xfer_id=self.XFER_ID, vfile_id=UUID(int=5), vfile_type=t.AssetType.BODYPART,
+                                        turbo=(proto == "xferTurbo"))
         else:
             self.mgr = im["tm"].TransferManager(self.holder, UUID(int=1), UUID(int=2))
             self.obj = self.mgr.request(source_type=t.TransferSourceType.SIM_ESTATE, transfer_id=self.tid,
@@ -108,7 +110,7 @@ class Receiver:
 
     def _packet(self, i, eof, data, foreign=False):
         t, Message, Block = self.im["t"], self.im["Message"], self.im["Block"]
-        if self.proto == "xfer":
+        if self.proto in ("xfer", "xferTurbo"):
             return Message("SendXferPacket",
                            Block("XferID", ID=self.OTHER_XFER_ID if foreign else self.XFER_ID,
                                  Packet_=t.XferPacket(PacketID=i, IsEOF=bool(eof))),
@@ -248,7 +250,7 @@ def _transfer_sender_table(chk: Check, lens):
     recs = common.export_records(chk, "Transfer_MBT", _t_cfg("MSpec", lens, [], [real_c], -1, True, invs=False),
                                  "Transfer sender table C=%d" % real_c)
     rows = [r for r in recs if "init" in r]
-    if len(rows) != len(lens):
+    if len(rows) != 2 * len(lens):
         raise MachineryError("sender table has %d rows, expected %d" % (len(rows), len(lens)))
     agg = _Agg()
 
@@ -322,7 +324,7 @@ async def _t_walks_async(args):
     traces = []
     for proto, n, payload in jobs:
         evs = []
-        if proto == "xfer":
+        if proto in ("xfer", "xferTurbo"):
             c = im["xm"].MAX_CHUNK_SIZE
             st, x = common.impl_call(lambda: im["xm"].Xfer(data=payload))
             if st != "ok":
@@ -407,7 +409,8 @@ def _transfer_b2(chk: Check, reps):
     tl = sorted({0, 1, 999, 1000, 1001, 1999, 2000, 2001, 3000, 5000})
     jobs = []
     for _ in range(reps):
-        jobs += [("xfer", n, _payload_bytes(n)) for n in xl] + [("transfer", n, _payload_bytes(n)) for n in tl]
+        jobs += [("xfer", n, _payload_bytes(n)) for n in xl] + [("xferTurbo", n, _payload_bytes(n)) for n in xl] + \
+            [("transfer", n, _payload_bytes(n)) for n in tl]
     parts = common.chunked(jobs, common.NCPU)
     traces = [t for r in common.parallel_map(_t_walks_chunk, [(chk.rng.randrange(1 << 30), p) for p in parts]) for t in r]
     cfg = "SPECIFICATION TraceSpec\nPOSTCONDITION TraceAccepted\nCHECK_DEADLOCK FALSE\n"
